@@ -1,5 +1,7 @@
 //! vpcheck — runtime monitors for geo-ant/varpro (see /verif/DESIGN.md)
 #![allow(clippy::needless_range_loop, clippy::too_many_arguments, clippy::type_complexity)]
+pub mod arity;
+pub mod coded;
 pub mod gen;
 pub mod la;
 pub mod oracle;
@@ -30,6 +32,11 @@ pub mod props {
     pub mod c12;
     pub mod c13;
     pub mod c14;
+    pub mod c15;
+    pub mod c16;
+    pub mod c17;
+    pub mod c18;
+    pub mod c19;
 }
 
 pub fn selftest() -> Result<(), String> {
@@ -44,6 +51,8 @@ pub fn sanitizer_workload(prop: &str, seed: u64, cases: u64, nmax: usize, len: u
     match prop {
         "C10" => props::c10::sanitizer_workload(seed, cases, nmax, len),
         "C11" => props::c11::sanitizer_workload(seed, cases, nmax, len),
+        "C16" => props::c16::sanitizer_workload(seed, cases, nmax, len),
+        "C17" => props::c17::sanitizer_workload(seed, cases, nmax, len),
         _ => panic!("no sanitizer workload for {prop}"),
     }
 }
